@@ -20,6 +20,7 @@ import (
 	"fmt"
 	"go/ast"
 	"go/token"
+	"regexp"
 	"sort"
 	"strconv"
 	"strings"
@@ -360,6 +361,40 @@ func genC02(repo string) (string, error) {
 		fmt.Fprintf(&b, "def %s : Nat := %d\n", strings.ToLower(cn[:2])+cn[2:], v)
 	}
 
+	// Analyzer.convertType, case *astzed.TypeName: the order in which a bare type name is
+	// resolved (the analyzer's own table first, the shared context's typedefs as a fallback)
+	fd, err = anGo.funcDecl("Analyzer", "convertType")
+	if err != nil {
+		return "", err
+	}
+	ts = nil
+	ast.Inspect(fd.Body, func(n ast.Node) bool {
+		if s, ok := n.(*ast.TypeSwitchStmt); ok && ts == nil {
+			ts = s
+		}
+		return ts == nil
+	})
+	if ts == nil {
+		return "", fmt.Errorf("%s: convertType: no type switch", anGo.pos(fd))
+	}
+	var tnBody []string
+	for _, s := range ts.Body.List {
+		cc := s.(*ast.CaseClause)
+		if len(cc.List) != 1 {
+			continue
+		}
+		if tn, ok := starTypeName(cc.List[0]); !ok || tn != "astzed.TypeName" {
+			continue
+		}
+		for _, st := range cc.Body {
+			tnBody = append(tnBody, c02StripComments(renderStmt(anGo, st)))
+		}
+	}
+	if len(tnBody) == 0 {
+		return "", fmt.Errorf("%s: convertType: case *astzed.TypeName not found", anGo.pos(fd))
+	}
+	fmt.Fprintf(&b, "def convertTypeNameBody : List String := %s\n", leanStrList(tnBody))
+
 	// formatter conditions
 	fmGo, err := parseFile(repo, "zson/formatter.go")
 	if err != nil {
@@ -531,4 +566,18 @@ func unquoteChar(lit string) (rune, bool, string, error) {
 
 func strconvUnquoteChar(s string, q byte) (rune, bool, string, error) {
 	return strconv.UnquoteChar(s, q)
+}
+
+var c02CommentRE = regexp.MustCompile(`//[^{}]*?(named :=|typ =|return|if )`)
+
+// c02StripComments removes the line comments the printer leaves inside a rendered statement
+// (the rendering is on one line, so a comment runs up to the next statement keyword).
+func c02StripComments(s string) string {
+	for {
+		loc := c02CommentRE.FindStringSubmatchIndex(s)
+		if loc == nil {
+			return s
+		}
+		s = s[:loc[0]] + s[loc[2]:]
+	}
 }
